@@ -29,17 +29,25 @@ pub struct Case {
     pub prefixes: Vec<PrefixSpec>,
     /// a multi-step history on ONE cursor (absolute and relative moves interleaved)
     pub ops: Vec<crate::model::Op>,
+    /// when set, the V1 trailer stores this count instead of the real number of entries ("opens with the STORED entry
+    /// count"); the content queries must be unaffected
+    #[serde(default)]
+    pub forged_count: Option<u64>,
 }
 
 /// Re-encodes a levels=0 V2 file as a V1 file: same blocks, 21-byte trailer built by the independent encoder
 /// from the independently parsed fields.
 pub fn to_v1(v2: &[u8]) -> Result<Vec<u8>, String> {
+    to_v1_with_count(v2, None)
+}
+
+pub fn to_v1_with_count(v2: &[u8], count: Option<u64>) -> Result<Vec<u8>, String> {
     let t = fmtdec::parse_trailer(v2).map_err(|e| e.to_string())?;
     if t.version != 2 || t.levels != 0 {
         return Err("not a single-level V2 file".into());
     }
     let mut out = v2[..v2.len() - 22].to_vec();
-    out.extend_from_slice(&fmtdec::encode_v1_trailer(t.root_offset, t.codec_id, t.count));
+    out.extend_from_slice(&fmtdec::encode_v1_trailer(t.root_offset, t.codec_id, count.unwrap_or(t.count)));
     Ok(out)
 }
 
@@ -84,8 +92,13 @@ impl Prop for C10 {
 
     fn stages(&self, tier: Tier) -> Vec<Stage<Case>> {
         let conf = gen::wconf_with(Just(0u8).boxed());
-        let s = (conf, gen::entry_src(tier), vec(any::<u16>(), 60), vec(gen::probe(), 20), vec(range_strategy(), 10), vec(prefix_strategy(), 10), gen::history(120))
-            .prop_map(|(conf, src, picks, probes, ranges, prefixes, ops)| Case { spec: FileSpec { conf, src }, picks, probes, ranges, prefixes, ops });
+        let forged = prop_oneof![
+            3 => Just(None),
+            1 => any::<u64>().prop_map(Some),
+            1 => prop::sample::select(vec![0u64, 1, 255, 256, u32::MAX as u64, 1 << 32, 1 << 56, u64::MAX - 1, u64::MAX]).prop_map(Some),
+        ];
+        let s = (conf, gen::entry_src(tier), vec(any::<u16>(), 60), vec(gen::probe(), 20), vec(range_strategy(), 10), vec(prefix_strategy(), 10), gen::history(120), forged)
+            .prop_map(|(conf, src, picks, probes, ranges, prefixes, ops, forged_count)| Case { spec: FileSpec { conf, src }, picks, probes, ranges, prefixes, ops, forged_count });
         vec![stage("files", s, tier.pick(2000, 60_000)).shrink(600)]
     }
 
@@ -105,13 +118,17 @@ impl Prop for C10 {
         let entries = case.spec.src.entries();
         let n = entries.len();
         let v2 = write_file(&case.spec.conf, &entries)?;
-        let v1 = match to_v1(&v2) {
+        let v1 = match to_v1_with_count(&v2, case.forged_count) {
             Ok(b) => b,
             Err(e) => fail!("c10:convert", "cannot convert: {e}"),
         };
         let reader = rd::open(&v1)?;
         ensure!(reader.file_version() == grenad::FileVersion::FormatV1, "c10:version", "file_version() = {:?} on a V1 trailer", reader.file_version());
-        ensure!(reader.len() == n as u64, "c10:len", "len() = {} but the V1 trailer stores {}", reader.len(), n);
+        let stored = case.forged_count.unwrap_or(n as u64);
+        if case.forged_count.is_some() {
+            obs.class("v1:forged-count");
+        }
+        ensure!(reader.len() == stored, "c10:len", "len() = {} but the V1 trailer stores {}", reader.len(), stored);
         ensure!(
             Codec::of_g5(reader.compression_type()) == case.spec.conf.codec,
             "c10:codec",
@@ -129,7 +146,11 @@ impl Prop for C10 {
         if let Some(d) = rd::first_diff(&r1.3, &rev) {
             fail!("c10:v1:backward", "backward scan of the V1 file differs from the content: {}", d);
         }
-        ensure!(r1 == r2, "c10:v1-vs-v2", "V1 and V2 encodings of the same content answer differently (len/codec/scan)");
+        ensure!(
+            (r1.1, &r1.2, &r1.3) == (r2.1, &r2.2, &r2.3) && (case.forged_count.is_some() || r1.0 == r2.0),
+            "c10:v1-vs-v2",
+            "V1 and V2 encodings of the same content answer differently (len/codec/scan)"
+        );
         // the same through a plain user-written `Read + Seek` source (no specialised read_vectored/read_exact), whole
         // and in short pieces
         for tape in [&[][..], &[0u8, 3, 0xE0, 200][..]] {
@@ -137,7 +158,7 @@ impl Prop for C10 {
             let src = crate::ioinstr::Source::new(std::rc::Rc::new(v1.clone()), ctl);
             let rs = rd::guard("Reader::new", || grenad::Reader::new(src))?;
             ensure!(rs.file_version() == grenad::FileVersion::FormatV1, "c10:source:version", "file_version() = {:?} through a plain Read+Seek source", rs.file_version());
-            ensure!(rs.len() == n as u64, "c10:source:len", "len() = {} through a plain Read+Seek source, the V1 trailer stores {}", rs.len(), n);
+            ensure!(rs.len() == stored, "c10:source:len", "len() = {} through a plain Read+Seek source, the V1 trailer stores {}", rs.len(), stored);
             ensure!(
                 Codec::of_g5(rs.compression_type()) == case.spec.conf.codec,
                 "c10:source:codec",
